@@ -18,7 +18,76 @@ TRUSTED = ["Spec/Decl.lean: our reading of C99 6.7.5 and of the documented AST s
 ASSUMPTIONS = ["the theorem that the *parser model* returns chainVal(denote D) for all D is not yet proved; the universal part proved so far is about the specification (every derivation list is denoted, names and redundant parentheses) and the tables"]
 
 
+def gen_multi(rng):
+    """a declaration / member list with several declarators, each with its own derivations, bit-field
+    width or initializer; returns (text, context, expected list of (name, chain, bitsize, init))"""
+    ctxk = rng.choice(["file", "member", "block", "typedef"])
+    base = rng.choice(["int", "unsigned", "long", "char"])
+    n = rng.choice([2, 2, 3, 4, 5])
+    parts, want = [], []
+    for i in range(n):
+        nm = "v%d" % i
+        ptr = rng.choice([0, 0, 1, 2])
+        dims = [rng.randrange(1, 9) for _ in range(rng.choice([0, 0, 1, 2]))]
+        bits = init = None
+        if ctxk == "member" and ptr == 0 and not dims and rng.random() < 0.6:
+            bits = rng.randrange(0 if rng.random() < 0.2 else 1, 9)
+            if bits == 0:
+                nm = None
+        elif ctxk in ("file", "block") and not dims and rng.random() < 0.5:
+            init = rng.randrange(0, 99)
+        d = "*" * ptr + (nm or "") + "".join("[%d]" % k for k in dims)
+        if bits is not None:
+            d += " : %d" % bits
+        if init is not None:
+            d += " = %d" % init
+        parts.append(d)
+        want.append((nm, ["Ptr"] * 0 + ["Array:%d" % k for k in dims] + ["Ptr"] * ptr, None if bits is None else str(bits), None if init is None else str(init)))
+    decl = ("typedef " if ctxk == "typedef" else "") + base + " " + ", ".join(parts) + ";"
+    text = {"file": decl, "typedef": decl, "member": "struct S { %s };" % decl, "block": "void f(void) { %s }" % decl}[ctxk]
+    return text, ctxk, want
+
+
+def observe_multi(args):
+    text, ctxk = args
+    from ..pyparse import py_parse_obj
+    r = py_parse_obj(text, "f.c")
+    if r[0] != "OK":
+        return "REJECT:" + str(r[1])[:80]
+    ast = r[1]
+    if ctxk == "member":
+        decls = ast.ext[0].type.decls
+    elif ctxk == "block":
+        decls = ast.ext[0].body.block_items
+    else:
+        decls = ast.ext
+    out = []
+    for d in decls:
+        chain, t = [], d.type
+        while type(t).__name__ != "TypeDecl":
+            if type(t).__name__ == "PtrDecl":
+                chain.append("Ptr")
+            elif type(t).__name__ == "ArrayDecl":
+                chain.append("Array:%s" % getattr(t.dim, "value", "?"))
+            else:
+                chain.append(type(t).__name__)
+            t = t.type
+        bits = getattr(d, "bitsize", None)
+        init = getattr(d, "init", None)
+        out.append((d.name, chain, None if bits is None else bits.value, None if init is None else init.value, t.declname))
+    return out
+
+
 def run(ctx):
+    rng = ctx.rng("multi")
+    cases_m = [gen_multi(rng) for _ in range(600 if ctx.quick() else 12000)]
+    obs = [observe_multi((t, k)) for t, k, _ in cases_m]
+    ctx.rule("%d declarations / member lists / typedefs with 2-5 declarators sharing one specifier list, each declarator with its own pointer levels, array bounds, bit-field width (incl. unnamed ':0') or initializer: every declared entity must carry exactly its own name, derivations (outermost first: arrays of pointers), width and initializer" % len(cases_m))
+    for (text, ctxk, want), got in zip(cases_m, obs):
+        exp = [(nm, ch, b, i, nm) for nm, ch, b, i in want]
+        if got != exp:
+            ctx.violation("declarators sharing a specifier list: got %r, expected %r for %r" % (got, exp, text), {"kind": "multi", "text": text, "ctx": ctxk, "want": [list(w) for w in want]})
+    ctx.count(len(cases_m), nontrivial_keys={t for t, _, _ in cases_m})
     reqs = [("c03", "enum", "0", "0", "10"), ("c03", "enum", "1", "0", "100"), ("c03", "enum", "2", "0", "1000"),
             ("c03", "enum", "3", "0", "1000")]
     if not ctx.quick():
@@ -31,6 +100,12 @@ def run(ctx):
 
 
 def replay(ctx, payload):
+    if payload["input"].get("kind") == "multi":
+        i = payload["input"]
+        got = observe_multi((i["text"], i["ctx"]))
+        exp = [(w[0], w[1], w[2], w[3], w[0]) for w in i["want"]]
+        print(got)
+        return got == exp
     if payload["input"].get("finding"):
         return not still_fails(payload["input"]["witness"])
     return S.replay_spec(ctx, payload)
